@@ -28,8 +28,9 @@ F('is_shift', r'constexpr\s+static\s+bool\s+is_shift\(parse_table_entry_kind kin
 F('make_situation_info', r'constexpr\s+static\s+situation_info\s+make_situation_info\(size32_t idx\)', 'struct situation_info make_situation_info(size32_t idx)',
   rules=[S(r'\bsituation_info\{', '(struct situation_info){', name='R16')])
 F('get_symbol_name', r'constexpr\s+const char\*\s+get_symbol_name\(const symbol& s\)\s*const', 'const char* get_symbol_name(struct symbol s)')
-F('write_situation_diag_str', r'constexpr\s+void\s+write_situation_diag_str\(Stream& s,\s*size32_t idx\)\s*const', 'void write_situation_diag_str(size32_t idx)')
-F('write_state_diag_str', r'constexpr\s+void\s+write_state_diag_str\(Stream& s,\s*size16_t idx\)\s*const', 'void write_state_diag_str(size16_t idx)')
+F('write_situation_diag_str', r'constexpr\s+void\s+write_situation_diag_str\(Stream& s,\s*\w+ idx\)\s*const', 'void write_situation_diag_str(vx_wsd_idx_t idx)')   # parameter type from the real declaration (R16)
+F('write_state_diag_str', r'constexpr\s+void\s+write_state_diag_str\(Stream& s,\s*size16_t idx\)\s*const', 'void write_state_diag_str(size16_t idx)',
+  rules=[Call(r'write_situation_diag_str', lambda m, p: 'write_situation_diag_str(%s, VX_ARG_FITS(vx_wsd_idx_t, %s))' % (p[0], p[1]), name='R5:argument converted to the parameter type of the real declaration without loss')])
 
 
 def rules_loop(body):
@@ -45,6 +46,8 @@ F('write_diag_str__rules', r'constexpr\s+void\s+write_diag_str\(Stream& s\)\s*co
 
 PRELUDE = PC.types(4, 8, 4, 2, 4, 3) + r'''
 int vx_thrown;
+/* an argument reaches the callee unchanged by the implicit conversion to the parameter's declared type */
+#define VX_ARG_FITS(T, e) (__CPROVER_assert(sizeof(T) >= sizeof(e) && (size_t)(T)(e) == (size_t)(e), "call/argument: the parameter type of write_situation_diag_str holds every item index its caller iterates over (32-bit loop variable over situation_address_space_size; no narrowing)"), (e))
 ''' + SX.cbitset_struct() + r'''
 struct parse_table_entry parse_table[PH_STATES][PH_SYMS];
 struct grammar_info gi;
@@ -65,5 +68,5 @@ UNIT = Unit('diag', PRELUDE, CB + fns, consts=PC.UNINIT + PC.CONSTS)
 UNIT.const_rules = PC.CONST_RULES
 UNIT.enums = PC.ENUMS
 UNIT.facts = PC.FACTS + SX.CB_FACTS
-UNIT.typedefs = PC.RT_TYPEDEFS
+UNIT.typedefs = PC.RT_TYPEDEFS + [('vx_wsd_idx_t', r'constexpr\s+void\s+write_situation_diag_str\(Stream& s,\s*(\w+) idx\)\s*const', None)]
 apply_spec(UNIT.fns, os.path.join(HERE, '..', 'contracts', 'diag.spec'))
